@@ -155,6 +155,9 @@ HEX = "0123456789abcdef"
 
 def action(kind: str, lexeme: str):
     """Call the live token action of `kind` on a hand-built sly Token (as tokenize does after a match)."""
+    # CrossHair 0.0.110 mis-models negative-index slices of a lazily concatenated symbolic str ("'" + s + "'")[1:-1];
+    # rebuilding the lexeme character by character gives the code under test an ordinary (symbolic) str
+    lexeme = "".join([c for c in lexeme])
     tok = _Token()
     tok.type, tok.value, tok.lineno, tok.index = kind, lexeme, 1, 0
     f = _OL._token_funcs.get(kind)
